@@ -964,7 +964,7 @@ fn grammar_space(ctx: &Ctx) -> (Vec<RefGrammar>, Vec<(String, usize)>) {
     let lists = if ctx.quick() {
         universe_list(&[(2, 2, 2, 2, 5)])
     } else {
-        universe_list(&[(2, 2, 2, 2, 6), (2, 3, 2, 2, 5), (2, 2, 2, 3, 6), (3, 2, 2, 2, 5)])
+        universe_list(&[(2, 2, 2, 2, 6), (2, 3, 2, 2, 5), (2, 2, 2, 3, 6), (3, 2, 2, 2, 4)])
     };
     let (mut gs, mut sizes) = union(lists);
     // acyclic grammars only (the statement of C07 excludes derivation cycles; C05/C06 make no
@@ -1041,7 +1041,8 @@ pub fn run(ctx: Ctx, mode: Mode) -> i32 {
             "mode": mode.name(),
             "grammar": g.to_json(),
             "n": n,
-            "cost_vals": if g.ntoks <= 3 { cost_vals.clone() } else { vec![1u8] },
+            // thorough: three cost values on one-token grammars, two on two-token grammars
+            "cost_vals": if ctx.quick() { if g.ntoks <= 3 { cost_vals.clone() } else { vec![1u8] } } else if g.ntoks <= 1 { cost_vals.clone() } else if g.ntoks == 2 { vec![1u8, 2] } else { vec![1u8] },
             // grammars with a rule that derives no string have an infinite search space: the
             // search always runs into the budget, so keep it (and its memory) small there
             // (also: a conflict-resolved table may be unable to parse some sentences at all); the
